@@ -151,12 +151,12 @@ def run_scenario(scn):
                     store = mem_store["obj"] or sr.fault_store("memory", None, yield_rnd=yr, log=[], latency=scn.get("store_latency"))
                     mem_store["obj"] = store
                 proc = sr.Proc(spec, store, idle_timeout=scn["idle_timeout"], stack=scn.get("stack", "inproc"), lifecycle_db=os.path.join(d, "lifecycle.db"),
-                               engine_latency=scn.get("engine_latency"))
+                               engine_latency=scn.get("engine_latency"), clock_latency=scn.get("clock_latency"))
                 procs = [proc]
                 if scn.get("replicas", 1) > 1 and scn.get("stack") == "dbos_sub":
                     # second replica: its own decorator chain / server / workflow instance over the SAME store, lifecycle table and engine
                     proc2 = sr.Proc(spec, store, idle_timeout=scn["idle_timeout"], stack="dbos_sub", lifecycle_db=os.path.join(d, "lifecycle.db"), engine=proc.engine,
-                                    engine_latency=scn.get("engine_latency"))
+                                    engine_latency=scn.get("engine_latency"), clock_latency=scn.get("clock_latency"))
                     procs.append(proc2)
                 starter = asyncio.ensure_future(proc.start())
                 senders = []
@@ -205,7 +205,7 @@ def run_scenario(scn):
         shutil.rmtree(d, ignore_errors=True)
 
 
-def gen_program(rnd, *, n=None, waiter_timeout=None, retry_delay=None, chain=False, post_wait_sleep=None):
+def gen_program(rnd, *, n=None, waiter_timeout=None, retry_delay=None, chain=False, post_wait_sleep=None, escalate=None):
     """wait-family program for the server: n items wait for Answer(key=v); optional waiter timeout; optional step that
     fails once and retries after `retry_delay`."""
     n = n or rnd.randint(1, 3)
@@ -217,6 +217,12 @@ def gen_program(rnd, *, n=None, waiter_timeout=None, retry_delay=None, chain=Fal
         {"name": "start", "in": ["Go"], "nw": 1, "acts": [{"k": "send", "type": "EvD", "items": items}, {"k": "ret", "type": None}], "declare": ["EvD"]},
         {"name": "ask", "in": ["EvD"], "nw": rnd.randint(1, 3), "acts": [{"k": "sleep", "d": {"from": "lat"}}, wait, {"k": "ret", "type": "EvC"}]},
     ]
+    if escalate:
+        # one invocation waits twice: a quick confirmation that nobody sends (times out after `escalate` s, the step catches the
+        # TimeoutError) and then the human's answer, without a timeout
+        quick = {"k": "wait", "type": "Answer2", "req": {"key": "{v}"}, "wid": "q-{uid}", "ask": "Ask2", "timeout": escalate}
+        i = steps[1]["acts"].index(wait)
+        steps[1]["acts"].insert(i, quick)
     if post_wait_sleep:
         # the step goes on working for a while after its wait ended (answer or TimeoutError)
         steps[1]["acts"].insert(2, {"k": "sleep", "d": post_wait_sleep})
@@ -239,10 +245,10 @@ def gen_program(rnd, *, n=None, waiter_timeout=None, retry_delay=None, chain=Fal
     return {"family": "idle", "steps": steps, "timeout": None, "externals": [], "meta": {"n": n, "keys": keys, "waiter_timeout": waiter_timeout, "retry_delay": retry_delay}}, keys
 
 
-def idle_instant(spec, store_latency=None, stack="inproc"):
+def idle_instant(spec, store_latency=None, stack="inproc", clock_latency=None):
     """virtual instant at which the run first becomes idle with every wait registered (reference run, no sends, no release);
     measured with the same store latency as the scenario it is a reference for"""
-    obs, cs = run_scenario({"spec": spec, "idle_timeout": 1e6, "sends": [], "end": 60.0, "store": "memory", "store_latency": store_latency, "stack": stack})
+    obs, cs = run_scenario({"spec": spec, "idle_timeout": 1e6, "sends": [], "end": 60.0, "store": "memory", "store_latency": store_latency, "stack": stack, "clock_latency": clock_latency})
     idles = [p["t"] for p in cs.tr.pubs if p["etype"] == "WorkflowIdleEvent"]
     if stack == "dbos_sub":
         # the event interceptor keeps published events away from the inner runtime: read the idle instants off the reducer
